@@ -1098,6 +1098,8 @@ impl AppearanceStreamEntry {
 impl ObjectWrite for AppearanceStreamEntry {
     fn to_primitive(&self, update: &mut impl Updater) -> Result<Primitive> {
         match self {
+            // an empty map writes as null, which this type cannot be read from
+            AppearanceStreamEntry::Dict(d) if d.is_empty() => Ok(Dictionary::new().into()),
             AppearanceStreamEntry::Dict(d) => d.to_primitive(update),
             AppearanceStreamEntry::Single(s) => s.to_primitive(update),
         }
